@@ -11,7 +11,8 @@ RULE = ("logical documents rendered as binary token streams (keys as token ids /
         "{fill, 1 byte, chunks}, BinaryFlavor::deserialize_slice/reader}.  non-trivial = a value came out")
 TRUSTED = ["serde's primitive visitors (integer range checks, int->float casts) are the real ones and are mirrored in dedoc.expected_scalar_bin",
            "flavor arithmetic (eu4: i32/1000 in f32, Q49.15 rounded to 5 digits; raw: IEEE bits) is recomputed exactly in Python (fractions)"]
-ASSUMPTIONS = ["container shapes only on containers of the same kind, `any` only on scalars and rgb; root target is a struct or map",
+ASSUMPTIONS = ["walk_model: the float decoders of the flavor and serde's `as` casts are parameters of the Coq model, implemented natively in ocaml/fam_bde.ml",
+               "container shapes only on containers of the same kind, `any` only on scalars and rgb; root target is a struct or map",
                "a ghost {} is never the first entry of a document/container: the tape parser deliberately rejects/reads it as an array there while "
                "the other two paths skip it (reported as an observation, not generated)",
                "I64 tokens make the tape parser fail (C03 finding B); they are generated only in the stream `i64` whose failures carry key B-tape-i64"]
@@ -67,6 +68,85 @@ def gen_cases(ctx, n, i64, rgb_any, tag):
     return cases, meta
 
 
+def walk_extra_cases(ctx):
+    """cases the document generator does not produce: shapes that do NOT fit (every path must still be
+    mirrored by its model, error class included), truncated / mutated byte strings, mixed containers"""
+    rng = ctx.rng
+    out = []
+    n = ctx.scale(600, 5000)
+    shapes_scalar = ["str", "bool", "u8", "u16", "u32", "u64", "i8", "i16", "i32", "i64", "f32", "f64", "date", "dh", "any", "ign",
+                     "opt(str)", "opt(any)", "seq(any)", "seq(str)", "seq(u16)", "map(any)", "map(str)", "tup(any,any)", "tup(str,seq(u8))",
+                     "tup(any)", "tup(any,any,any)", "enum(%s,%s)" % (hx("aaa"), hx("rgb")), "seq(ign)", "map(ign)", "seq(opt(any))"]
+    for _ in range(n):
+        doc = D.gen_doc(rng, ops=False, i64=rng.random() < 0.2)
+        fl = rng.choice(["eu4", "raw"])
+        ids = doc["ids"]
+        known = set(x for x in ids if rng.random() < 0.7)
+        strat = rng.choice(["error", "stringify", "ignore"])
+        b = D.render_bin(doc, fl)
+        r = rng.random()
+        if r < 0.25 and len(b) > 2:
+            b = b[:rng.randrange(1, len(b))]                        # truncated
+        elif r < 0.45 and len(b) > 2:
+            i = rng.randrange(len(b))
+            b = b[:i] + bytes([rng.choice([0, 1, 3, 4, 0x0c, 0x0e, 0x0f, 0x14, 0x17, 0x43, 2, rng.randrange(256)])]) + b[i + 1:]
+        elif r < 0.55 and len(b) > 4:
+            i = rng.randrange(0, len(b), 2)
+            b = b[:i] + rng.choice([D.OPEN, D.CLOSE, D.EQ, D.OPEN + D.CLOSE, D.tok(0x243), D.tok(0x0e) + b"\x01"]) + b[i:]
+        # a root struct whose field shapes are drawn at random: mostly unfit
+        keys = []
+        for f in doc["f"]:
+            if f["k"] not in keys:
+                keys.append(f["k"])
+        rng.shuffle(keys)
+        fields = []
+        for k in keys[:rng.randrange(0, 5)]:
+            mode = rng.choice(["", "", "*", "!"])
+            fields.append(hx(k) + mode + ":" + rng.choice(shapes_scalar))
+        if rng.random() < 0.3:
+            shape = "map(%s)" % rng.choice(shapes_scalar)
+        else:
+            shape = "struct(%s)" % ",".join(fields)
+        res = D.resolver_spec(ids, known, "map")
+        for p in ("tape", "slice", "reader:%d:%s" % (rng.choice([32, 40, 64, 32768]), rng.choice(["-", "1*", "3,5*", "2,7,1"]))):
+            out.append("\t".join(["de.model.bin", p, strat, res, fl, shape, hx(b)]))
+        ctx.count("walk_extra_docs")
+    # fitting shapes on truncated / damaged renderings: end-of-input and bad tokens met in every nested context
+    for _ in range(ctx.scale(300, 3000)):
+        doc = D.gen_doc(rng, ops=False, i64=False)
+        fl = rng.choice(["eu4", "raw"])
+        ids = doc["ids"]
+        M = D.Mode("bin", flavor=fl, strategy="ignore", known=set(ids), ids=ids)
+        sh = None
+        for _k in range(10):
+            cand = D.gen_shape(rng, [doc], dict(mode="bin", full=rng.random() < 0.7, mishint=0.0, prop=False, any=True, root=True, rgb_any=True))
+            if D.expected(cand, doc, M) != "ERR:unfit":
+                sh = cand
+                break
+        if sh is None:
+            continue
+        b = D.render_bin(doc, fl)
+        res = D.resolver_spec(ids, set(ids), "map")
+        variants = []
+        for _j in range(4):
+            if len(b) > 2:
+                variants.append(b[:rng.randrange(1, len(b))])
+        if len(b) > 4:
+            i = rng.randrange(0, len(b), 2)
+            variants.append(b[:i] + rng.choice([D.OPEN, D.CLOSE, D.EQ, D.CLOSE + D.CLOSE]) + b[i:])
+            variants.append(b[:i] + b[i + 2:])
+        # a ghost / empty container whose `}` is replaced by something else: what the key loops swallow after an Open
+        g = b.find(D.OPEN + D.CLOSE)
+        if g >= 0 and g % 2 == 0:
+            for repl in (D.tok(0x0c) + struct.pack("<i", 5), D.tok(0x0e) + b"\x01", D.bstr(b"zz", True), D.tok(0x1234), D.EQ):
+                variants.append(b[:g] + D.OPEN + repl + b[g + 4:])
+        for v in variants:
+            for p in ("tape", "slice", "reader:%d:%s" % (rng.choice([64, 32768]), rng.choice(["-", "1*", "4,9*"]))):
+                out.append("\t".join(["de.model.bin", p, "ignore", res, fl, D.shape_str(sh), hx(v)]))
+        ctx.count("walk_damaged_docs")
+    return out
+
+
 def py_lines_resolver(raw):
     """spec of BasicTokenResolver::from_text_lines: lines `0x<hex> <name>`; returns dict or None (error)"""
     out = {}
@@ -89,10 +169,17 @@ def py_lines_resolver(raw):
     return out
 
 
+def to_model(cases):
+    """the same case for the extracted walk models (kind de.model.bin; the harness runs it as de.bin)"""
+    return ["de.model.bin" + c[len("de.bin"):] for c in cases if c.startswith("de.bin\t")]
+
+
 def run(ctx):
     rng = ctx.rng
     nt = lambda c, i: i.startswith("(")
+    walk = []
     cases, meta = gen_cases(ctx, ctx.scale(4000, 30000), i64=False, rgb_any=False, tag="main")
+    walk += to_model(cases)
     impl, _ = ctx.correspond("paths", cases, nontrivial=nt, model=False)
     base = len(impl) - len(cases)
     for k, (exp, g, p, doc, sh) in enumerate(meta):
@@ -102,6 +189,7 @@ def run(ctx):
 
     # I64 tokens (C03 finding B shows through the tape path)
     cases, meta = gen_cases(ctx, ctx.scale(250, 2000), i64=True, rgb_any=False, tag="i64")
+    walk += to_model(cases)
     impl, _ = ctx.correspond("i64", cases, nontrivial=nt, model=False)
     base = len(impl) - len(cases)
     for k, (exp, g, p, doc, sh) in enumerate(meta):
@@ -117,6 +205,7 @@ def run(ctx):
 
     # rgb into a dynamically shaped target (finding C: the on-demand path has no RGB arm in deserialize_any)
     cases, meta = gen_cases(ctx, ctx.scale(250, 2000), i64=False, rgb_any=True, tag="rgbany")
+    walk += to_model(cases)
     impl, _ = ctx.correspond("rgb-any", cases, nontrivial=nt, model=False)
     base = len(impl) - len(cases)
     for k, (exp, g, p, doc, sh) in enumerate(meta):
@@ -132,10 +221,28 @@ def run(ctx):
     # fixed replay of C
     col = D.tok(0x1000) + D.EQ + D.tok(0x243) + D.OPEN + b"".join(D.tok(0x14) + struct.pack("<I", c) for c in (110, 27, 27)) + D.CLOSE
     fc = ["\t".join(["de.bin", p, "error", "map:1000=" + hx("color"), "eu4", "struct(%s:any)" % hx("color"), hx(col)]) for p in ("tape", "slice", "reader:64:-")]
+    walk += to_model(fc)
     impl, _ = ctx.correspond("known-deviations", fc, nontrivial=nt, model=False)
     a, b, c = impl[-3:]
     if not (a == b == c):
         ctx.fail("C-ondemand-rgb-any", "color=rgb{110 27 27} into deserialize_any: tape %s, on-demand %s, stream %s" % (a, b, c), fc, [a, b, c], a)
+
+    # findings N and O (found while modelling the three walks; Props/C04_walk.v: C04_u16_on_id_value_refuted,
+    # C04_rgb_in_array_refuted): fixed replays, each must keep showing the deviation it documents and nothing else
+    xk = D.bstr(b"x", True) + D.EQ
+    n_doc = xk + D.tok(0x1234)
+    rgb = D.tok(0x243) + D.OPEN + b"".join(D.tok(0x14) + struct.pack("<I", c) for c in (1, 2, 3)) + D.CLOSE
+    o_doc = xk + D.OPEN + rgb + D.CLOSE
+    nc = ["\t".join(["de.bin", p, "error", "map:1234=" + hx("abc"), "eu4", "struct(%s:u16)" % hx("x"), hx(n_doc)]) for p in ("tape", "slice", "reader:64:-")]
+    oc = ["\t".join(["de.bin", p, "stringify", "map:-", "eu4", "struct(%s:seq(any))" % hx("x"), hx(o_doc)]) for p in ("tape", "slice", "reader:64:1*")]
+    walk += to_model(nc + oc)
+    impl, _ = ctx.correspond("known-deviations", nc + oc, nontrivial=nt, model=False)
+    a, b, c = impl[-6:-3]
+    if not (a == b == c):
+        ctx.fail("N-tape-u16-id-value", "x=<token id 0x1234> into a u16 field: tape %s, on-demand %s, stream %s" % (a, b, c), nc, [a, b, c], b)
+    a, b, c = impl[-3:]
+    if not (a == b == c):
+        ctx.fail("O-tape-rgb-in-array", "x={ rgb{1 2 3} } into seq(any): tape %s, on-demand %s, stream %s" % (a[:90], b[:90], c[:90]), oc, [a, b, c], b)
 
     # token text-line parser of BasicTokenResolver
     rcases, rexp = [], []
@@ -168,6 +275,12 @@ def run(ctx):
         if impl[base + k] != e:
             ctx.fail("resolver-lines", "from_text_lines answers %s, the lines say %s" % (impl[base + k], e), [rcases[k]], [impl[base + k]], e)
 
+    # the three deserializer walks inside the Coq model (BinDeTape / BinDeOndemand / BinDeReader over
+    # SerdeShape.walk, run from the bytes: tape parser, lexer and streaming reader are the C03/C08 models)
+    walk += walk_extra_cases(ctx)
+    ctx.count("walk_model_cases", len(walk))
+    ctx.correspond("walk_model", walk, nontrivial=nt)
+
     # scalar level: extracted Serde.bin_scalar against the real on-demand path
     from props import descalar
     ctx.correspond("scalar-tokens", descalar.bin_cases(ctx, ctx.scale(150, 1500)), nontrivial=nt)
@@ -186,6 +299,6 @@ def search(ctx):
 
 CLAIM = {
     "text": "the three binary deserializers and the BinaryFlavor convenience entry points are run through a runtime-shape serde interpreter on generated binary documents x resolvers x strategies x flavors x shapes x buffer sizes/schedules; each result is compared with an independently computed expected value (hence pairwise equal); Coq: see coverage.theorems",
-    "note": "Theorems in Props/C04.v are over the Serde specification and the binary value model; byte-level lexing is C03/C08. The path agreement itself is carried by the oracle streams.",
+    "note": "Props/C04_walk.v: the three deserializer walks are executable Coq models run from the bytes (stream walk_model); each is proved equal to the specification walk over abstract documents (hence pairwise equal) for all configurations, shapes that fit and well-formed documents, the reader for every fitting capacity and fault-free schedule. Props/C04.v keeps the scalar-level laws. Findings N (u16 target on a token-id value) and O (rgb as an array element) are outside the fitting class and are replayed.",
     "technique": "machine-checked proof in Coq over an executable model + specification oracle on the implementation",
 }
